@@ -69,6 +69,35 @@ LAYOUTS = [
 ]
 
 
+N_MAIN = len(LAYOUTS)  # layouts drawn as the main layout of a case
+
+
+def _sibling(lay, delta):
+  """Same parameter names / kinds / bounds / padding, other category counts."""
+  params = []
+  for p in lay['params']:
+    if p['kind'] == 'CATEGORICAL':
+      n = max(1, len(p['values']) + delta)
+      p = dict(p, values=['v%d' % i for i in range(n)])
+    params.append(p)
+  return {'params': params, 'pad': lay['pad']}
+
+
+# index N_MAIN + 2*i is the "large" sibling (every category count +2), index
+# N_MAIN + 2*i + 1 the "small" one (-1, at least 1) of main layout i.
+for _i in range(N_MAIN):
+  LAYOUTS.append(_sibling(LAYOUTS[_i], +2))
+  LAYOUTS.append(_sibling(LAYOUTS[_i], -1))
+
+
+def sibling(idx, which):
+  return N_MAIN + 2 * idx + (0 if which == 'large' else 1)
+
+
+def has_sibling(idx):
+  return any(p['kind'] == 'CATEGORICAL' for p in LAYOUTS[idx]['params'])
+
+
 def layout_info(idx):
   """Static facts about a layout, derived from the JSON spec alone."""
   lay = LAYOUTS[idx]
@@ -192,7 +221,14 @@ def score_class():
                   + sum_{j<n_cat} wc_j * [k_j == c_j]
               s = floor(s * kp) / kp                  if kp > 0   (plateaus)
               s = bad_val  on the drawn region        (NaN / -inf)
-  region kinds: 0 none, 1 x[dim] < thr, 2 x[dim] > thr, 3 k[dim] == thr
+  region kinds: 0 none, 1 x[dim] < thr, 2 x[dim] > thr, 3 k[dim] == thr,
+  4 the point is exactly the target (x == t on real columns and k == c);
+  bad_val is NaN, -inf or +inf.
+  trap: a point with an out-of-domain real feature (NaN, outside [0,1],
+  category index < 0 or >= size) scores `trap` (1e3, more than any in-domain
+  point unless the region value is +inf): an optimiser that ever evaluates
+  such a point will report it as its best.  With n_parallel a set containing
+  one such point scores `trap`.
   n_parallel given: per-point scores reduced over the parallel axis by sum
   (red=0) or min (red=1).  The function is pure and ignores the seed.
   Padded columns are read through explicit 0/1 column masks so that whatever
@@ -216,9 +252,18 @@ def score_class():
     bad_thr: jax.Array   # () float
     bad_val: jax.Array   # () float (nan or -inf)
     red: jax.Array       # () int
+    sizes: jax.Array     # (n_cat_pad,) int, huge on padded columns
+    kmask: jax.Array     # (n_cat_pad,) 1 on real columns
+    trap: jax.Array      # () float
     parallel: bool = eqx.field(static=True)
 
+    def invalid(self, xc, xk):
+      bc = (self.cmask > 0) & (jnp.isnan(xc) | (xc < 0) | (xc > 1))
+      bk = (self.kmask > 0) & ((xk < 0) | (xk >= self.sizes))
+      return jnp.any(bc, axis=-1) | jnp.any(bk, axis=-1)
+
     def per_point(self, xc, xk):
+      xc = jnp.where(jnp.isnan(xc), 0.0, xc)
       d = jnp.where(self.cmask > 0, xc - self.t, 0.0)
       s = -self.wd * jnp.sum(d * d, axis=-1)
       s = s + jnp.sum(jnp.where(xk == self.c, self.wc, 0.0), axis=-1)
@@ -237,15 +282,20 @@ def score_class():
         in3 = (self.bad_kind == 3) & (kcol == self.bad_thr.astype(xk.dtype))
       else:
         in3 = jnp.zeros(s.shape, dtype=bool)
-      return jnp.where(in1 | in2 | in3, self.bad_val, s)
+      at_t = jnp.all((self.cmask <= 0) | (xc == self.t), axis=-1) & jnp.all(
+          (self.kmask <= 0) | (xk == self.c), axis=-1)
+      in4 = (self.bad_kind == 4) & at_t
+      return jnp.where(in1 | in2 | in3 | in4, self.bad_val, s)
 
     def __call__(self, x, seed=None):
       del seed
-      s = self.per_point(x.continuous.padded_array,
-                         x.categorical.padded_array)
+      xc, xk = x.continuous.padded_array, x.categorical.padded_array
+      s = self.per_point(xc, xk)
+      inv = self.invalid(xc, xk)
       if self.parallel:
         s = jnp.where(self.red == 1, jnp.min(s, axis=-1), jnp.sum(s, axis=-1))
-      return s
+        inv = jnp.any(inv, axis=-1)
+      return jnp.where(inv, self.trap, s)
 
   _SCORE_CLS['cls'] = Score
   return Score
@@ -321,7 +371,14 @@ def make_score(desc, info, parallel, t_override=None, c_override=None):
     else:
       dim %= nk
       thr = float(int(thr) % info['sizes'][dim])
-  val = float('nan') if bad['val'] == 'nan' else float('-inf')
+  elif kind != 4:
+    kind = 0
+  val = {'nan': float('nan'), '-inf': float('-inf'),
+         '+inf': float('inf')}[bad['val']]
+  sizes = np.full([nkp], 2**30, np.int32)
+  sizes[:nk] = info['sizes']
+  kmask = np.zeros([nkp], np.int32)
+  kmask[:nk] = 1
   return Score(
       t=jnp.asarray(t), cmask=jnp.asarray(cmask),
       wd=jnp.asarray(desc['wd'], jnp.float32),
@@ -329,7 +386,9 @@ def make_score(desc, info, parallel, t_override=None, c_override=None):
       kp=jnp.asarray(desc.get('kp', 0.0), jnp.float32),
       bad_kind=jnp.asarray(kind, jnp.int32), bad_dim=jnp.asarray(dim, jnp.int32),
       bad_thr=jnp.asarray(thr, jnp.float32), bad_val=jnp.asarray(val, jnp.float32),
-      red=jnp.asarray(int(desc.get('red', 0)), jnp.int32), parallel=parallel)
+      red=jnp.asarray(int(desc.get('red', 0)), jnp.int32),
+      sizes=jnp.asarray(sizes), kmask=jnp.asarray(kmask),
+      trap=jnp.asarray(1e3, jnp.float32), parallel=parallel)
 
 
 def as_model_input(cont, cat):
